@@ -14,19 +14,25 @@ from ..drivers import simruns as R
 
 META = dict(
     category="model_checking",
-    technique="TLA+ lock-step product of the two matching algorithms transcribed from backtest_mode (SimEquiv.tla) checked "
-              "exhaustively by TLC on a price lattice; differential trace spec (TraceSimEquiv.tla): pairs of real "
-              "research.backtest runs (fast_mode off/on, equal arguments) judged by TLC, precondition re-derived by TLC "
-              "from the normal run",
-    text="TLC explores every feed on the lattice and every decision of a small policy menu for chunk sizes 2 and 3 and "
-         "checks that whenever the normal run has at most one resting fill per trading candle, both simulators execute the "
-         "same orders (side, type, price, minute) and reach the same position, balance and resting orders; outside the "
-         "precondition TLC exhibits the known divergences, showing the antecedent matters. For the code, TLC compares "
-         "executed orders, closed trades and final balances of real paired runs over spot/futures, trading 1m..1h, data "
-         "routes, fees and leverage modes; runs outside the precondition are counted and discarded. Bounded: lattice and "
-         "depth of the model, finitely many random sessions, policy family of make_policy_strategy.",
-    note="Trusted: TLC, the JSON encoder, the recorder wrappers, research.backtest determinism. Known finding: the fast "
-         "simulator raises ValueError on series whose length is not a multiple of the chunk (gcd of route timeframes).",
+    technique="TLA+ lock-step product of the two matching algorithms and the strategy step transcribed from backtest_mode / "
+              "Strategy (SimCore.tla, SimEquiv.tla) explored exhaustively by TLC on a price lattice; the model is bound to the code "
+              "both ways (TraceSimModel.tla: TLC-exported witness scenarios and random scenarios are run on the real normal and "
+              "fast simulators and TLC checks the model predicts each of them fill for fill); differential trace spec "
+              "(TraceSimEquiv.tla): pairs of real research.backtest runs (fast_mode off/on, equal arguments) judged by TLC, the "
+              "precondition re-derived by TLC from the normal run",
+    text="TLC explores every feed on lattices 3-5 and every decision of a policy menu (market/limit/stop entries, absolute exits or "
+         "exits placed in on_open_position relative to the price seen there, cancel, liquidate) for chunks of 1-3 minutes, trading "
+         "candle = chunk or a multiple, aligned and ragged lengths, and checks that inside antecedent (<= 1 resting fill per trading "
+         "candle in the normal run) and quantifier (resting prices spaced wider than the candle moves) both simulators execute the "
+         "same orders (side, type, price, minute) and reach the same position and balance - for the repaired inner loop without "
+         "exception, for the loop as it is in the tree modulo the one known class (fill in a gapped minute inside a chunk), whose "
+         "witnesses TLC lists and the harness reproduces on the code. For the code, TLC compares executed orders, closed trades and "
+         "final balances of real paired runs over spot/futures, trading 1m..1h, smaller/larger data routes, fees, leverage modes, "
+         "warm-up, ragged lengths; pairs outside the precondition are counted and discarded. Bounded: lattice/depth of the model, "
+         "quantity 1 and fee 0 in the model, finitely many random sessions, the policy family of make_policy_strategy.",
+    note="Trusted: TLC, the JSON encoder, the recorder wrappers (Order.execute + strategy callbacks), determinism of "
+         "research.backtest. The spacing quantifier is formalised as: in no trading window do two different resting-order prices of "
+         "the normal run lie inside the window's price range. Known finding: inner-gap-fill (proposed repair in fixes/).",
     design_ref="4/C12")
 
 TFS = ['1m', '3m', '5m', '15m', '30m', '1h']
@@ -82,7 +88,7 @@ def gen_item(rng, idx, quick, ragged=False):
 
 def side(r):
     return {"fills": [dict(side=f['side'], type=f['type'], qty=f['qty'], price=f['price'], minute=f['minute']) for f in r['fills']],
-            "trades": r['trades'], "bal": r['bal'], "liq": r['liq'], "exc": r['exc']}
+            "trades": r['trades'], "bal": r['bal'], "liq": r['liq'], "exc": r['exc'], "hooks": r['hooks']}
 
 
 def make_trace(tid, item, rn, rf):
@@ -181,10 +187,10 @@ def run(ctx):
                         "precondition decided by TLC on the normal run: <= 1 LIMIT/STOP execution per aligned window of "
                         "the trading timeframe, total_liquidations = 0, the normal run completes"]
     from ..drivers import simequiv as c12_model
-    c12_model.model_part(ctx)
+    fixed = c12_model.model_part(ctx)
     ctx.log("M done: %d states" % ctx.coverage.get("states", 0))
     trace_part(ctx)
-    bad = c12_model.binding_part(ctx)
+    bad = c12_model.binding_part(ctx, fixed)
     ctx.log("binding done: %d scenarios" % ctx.coverage.get("model_scenarios_replayed_on_code", 0))
     if bad:
         txt = ("SimCore.tla does not describe what a real simulator did on %d scenario(s) inside the antecedent and quantifier of "
